@@ -130,6 +130,11 @@ func init() {
 		ex.scheduler().yield("yield")
 		return nil
 	})
+	// PreemptAtGo(on): every `go` statement becomes a scheduling point (the new goroutine may run first).
+	v("PreemptAtGo", func(ex *Exec, c *frame, fn *ssa.Function, a []Value) Value {
+		ex.preemptAtGo = a[0].(bool)
+		return nil
+	})
 	v("AtomicOps", func(ex *Exec, c *frame, fn *ssa.Function, a []Value) Value { return int64(ex.atomicOps) })
 	// RaceReports(): the data races seen so far on this path (both accesses in code under test), one string
 	// "kind: first-access-position / second-access-position" each.
